@@ -9,7 +9,7 @@ from vf import gen
 from vf.core import Clause
 
 PHASES = ['g', 'gas', 'G', 'Gas', 's', 'S', None]
-ADS = ['CO(S)', 'O(S)', 'H(S)', 'OH(S)']     # suffix-related names on purpose
+ADS = ['CO(S)', 'O(S)', 'H(S)', 'OH(S)', 'O', 'OH', 'CO']     # suffix- and prefix-related names on purpose
 
 
 @st.composite
